@@ -20,7 +20,7 @@ ASSUMPTIONS = [
     "virtual calls fan out to every implementation; an operator's own effects exclude its child operators",
 ]
 
-EXEMPT = ("allocator", "advisory", "config", "clock")
+EXEMPT = ("allocator", "advisory", "config", "clock", "payload")
 R1B_EXCEPT = {
     ("LpgStore::create_node_with_props_versioned", "latest_mut"):
         "applies to the node id allocated by this very call: the latest version is the one this transaction just added, "
@@ -120,7 +120,8 @@ def run(ctx):
     disc = P.fn("LpgStore::discard_uncommitted_versions")
     ctx.ob("R1c", "Session::rollback->discard", disc.id in P.reach([rollback]),
            what="Session::rollback does not reach LpgStore::discard_uncommitted_versions", where=rollback.loc())
-    rvb = P.fn("VersionChain::remove_versions_by")
+    tiered = common.versioned_cells(P)["nodes"] != "nodes"
+    rvb = P.fn("VersionIndex::remove_versions_by" if tiered else "VersionChain::remove_versions_by")
     ctx.ob("R1c", "discard->remove_versions_by", rvb.id in P.reach([disc]),
            what="discard_uncommitted_versions does not reach VersionChain::remove_versions_by", where=disc.loc())
     # the retain predicate keeps a version iff created_by != tx
@@ -131,8 +132,10 @@ def run(ctx):
             nm = callee_name(t)
             if nm.endswith("::ne") or nm.endswith("::eq"):
                 a, b = gx.tags(t["args"][0]), gx.tags(t["args"][1])
-                if ("cell:VersionInfo.created_by" in a) != ("cell:VersionInfo.created_by" in b):
-                    other = b if "cell:VersionInfo.created_by" in a else a
+                cb = lambda tg: any(x.startswith("cell:") and x.endswith(".created_by") for x in tg) or "call:VersionRef::created_by" in tg \
+                    or any(x.startswith("call:") and x.endswith("::created_by") for x in tg)
+                if cb(a) != cb(b):
+                    other = b if cb(a) else a
                     # the other operand must be the tx parameter of remove_versions_by
                     is_param = any(x.startswith("param:") or x.startswith("upvar:") for x in other)
                     found.append((g, "ne" if nm.endswith("::ne") else "eq", is_param, t["line"], bi))
